@@ -82,7 +82,7 @@ def genConcatCase : G (List String) := do
   let tr ← below 256
   let pics ← (List.range n).mapM fun k => do
     let c ← below 5
-    genPic cfg (if k = 0 then 0 else if c = 0 then 0 else if c = 1 ∧ cfg.flavour < 2 then 2 else 1) dims (tr + k)
+    genPic cfg (if k = 0 then 0 else if c = 0 then 0 else if c = 1 ∧ cfg.flavour < 2 then 2 else 1) dims (tr + k) true
   -- only complete pictures: every macroblock present
   let pics := pics.map fun p => p
   let all := String.join (pics.map fun p => (hexOf p))
@@ -116,7 +116,48 @@ def annexACases (k seed count : Nat) : List String := Id.run do
     out := s!"T 1 8 64 255 {body}" :: s!"T 1 8 64 0 {body}" :: out
   return out.reverse
 
+/-- complete intra pictures of every size 1..W x 1..H (Sorenson, custom size), random quantizer: PP lines -/
+def sizeCases (W H : Nat) : G (List String) := do
+  let mut out : List String := []
+  for w in [1:W+1] do
+    for h in [1:H+1] do
+      let v ← below 2
+      let p ← genPic { flavour := v } 0 (w, h) (w + h) true
+      out := s!"PP 1 {hexOf p}" :: out
+  pure out.reverse
+
+/-- hand-built stress streams for C01: zero sizes, 11-bit levels at high quantizers, more macroblock data than the picture
+holds, a reference of another size -/
+def stressCases : G (List String) := do
+  let mut out : List String := []
+  -- zero / tiny / asymmetric custom sizes, both size-code forms
+  for (w, h) in [(0, 0), (0, 16), (16, 0), (1, 1), (1, 255), (255, 1), (17, 1), (1, 17)] do
+    for code in [0, 1] do
+      let p ← genPic { flavour := 1 } 0 (16, 16) 3 true
+      let hdr : SorensonHdr := { version := 1, tr := 3, sizeCode := code, customW := w, customH := h, picType := 0,
+                                 deblock := false, quant := 31, extra := [] }
+      out := s!"P 1 d:{hexOf { p with hdr := .sorenson hdr }}" :: out
+  -- 11-bit escape levels at every quantizer
+  for q in [1, 16, 17, 30, 31] do
+    for lvl in [(1023 : Int), -1023, 529, -529, 528, 964] do
+      let blk : BlockD := { dc := some 128 |>.map (fun _ => 200), events := [{ run := 0, level := lvl, form := .esc11 }, { run := 62, level := -lvl, form := .esc11 }] }
+      let mb : MbD := { stuffing := 0, kind := .coded .intra 0 (0, 0) ((0, 0), (0, 0), (0, 0)) [blk, blk, blk, blk, blk, blk] }
+      let p : PicD := { hdr := .sorenson { version := 1, tr := 1, sizeCode := 0, customW := 16, customH := 16, picType := 0,
+                                           deblock := true, quant := q, extra := [] }, mbs := [mb] }
+      out := s!"P 1 d:{hexOf p}" :: out
+  -- more macroblocks than the picture holds; then a predicted picture of another size
+  for n in [2, 3, 9] do
+    let p ← genPic { flavour := 0 } 0 (16, 16) 7 true
+    let extra ← (List.range n).mapM fun _ => genMb { flavour := 0 } true
+    let small ← genPic { flavour := 0 } 1 (16, 16) 8 true
+    let big ← genPic { flavour := 0 } 0 (48, 32) 7 true
+    out := s!"P 1 d:{hexOf { p with mbs := p.mbs ++ extra }};n" :: out
+    out := s!"P 1 d:{hexOf big};d:{hexOf small};n" :: s!"P 1 d:{hexOf p};d:{hexOf { small with hdr := big.hdr, mbs := small.mbs }}" :: out
+  pure out.reverse
+
 def runGen (kind : String) (seed count : Nat) : List String :=
+  if kind == "stress" then (stressCases.run (seed * 2654435761 + 7)).1 else
+  if kind == "sizes" then ((sizeCases count count).run (seed * 2654435761 + 99)).1 else
   if kind.startsWith "annexa" then annexACases (kind.drop 6).toString.toNat! seed count else
   if kind == "dquant" then dquantCases else
   let g : G (List String) := do
